@@ -120,9 +120,12 @@ def case_solid(kind, fam, geometry, mat, rep):
         field, mesh, reg = make_field(kind, fam, geometry, rng)
         random_state(rng, field)
         if kind.startswith("mixed"):
-            base = fem.NeoHooke(mu=1.0, bulk=float(rng.uniform(5, 30)))
+            # wrapped laws with and without a distortional / volumetric split (the u-J block vanishes for split laws)
+            inner = ["NeoHooke", "NeoHookeCompressible", "SaintVenantKirchhoff(tensortrax)", "LinearElasticLargeStrain"][(rep + len(fam)) % 4]
+            base = fem.NeoHooke(mu=1.0, bulk=float(rng.uniform(5, 30))) if inner == "NeoHooke" else materials(rng, inner)
             if mat == "ThreeFieldVariation":
                 umat = fem.ThreeFieldVariation(base)
+                run.units["mixed-inner:" + inner] += 1
             else:
                 umat = fem.NearlyIncompressible(fem.NeoHooke(mu=1.0), bulk=float(rng.uniform(5, 30)))
             body = fem.SolidBody(umat, field)
@@ -556,6 +559,7 @@ def _required():
                                      "mixed-list[condensed+pressure+constraint]", "MultiPointConstraint[2d]", "MultiPointContact[2d]",
                                      "SolidBody[mixed,tetraMINI]", "SolidBody[mixed,triangleMINI]", "SolidBody[mixed,hexahedron27]",
                                      "SolidBodyNearlyIncompressible[tetra10]", "SolidBody[RegionLagrange]")]
+    req += ["mixed-inner:NeoHooke", "mixed-inner:NeoHookeCompressible"]
     req.append("multi-item-list-with-multiplier=-1")
     req += ["order:after-another-state", "order:foreign-container", "order:parallel", "solidbody-multiplier"]
     req += ["ni-umat:" + w for w in ("NeoHooke", "tt.yeoh", "NeoHookeCompressible", "OgdenRoxburgh")]
